@@ -66,6 +66,11 @@ type Case struct {
 	// Dims, when present, gives frame i of the pool its own size (a shared parameters object
 	// then serves images of different geometry, as a Transcoder working through a study does)
 	Dims [][2]int `json:",omitempty"`
+	// Cold: the concurrent phases come first and the "run alone" references are computed
+	// afterwards, so that the very first calls a process makes on a codec are concurrent ones
+	// (lazily built tables, sync.Once-like guards). Jobs: the encode jobs, then decode jobs
+	// whose inputs are the streams the encode jobs of the same frame returned.
+	Cold bool `json:",omitempty"`
 }
 
 func (c *Case) dims(frame int) (int, int) {
@@ -254,7 +259,84 @@ func raceSig(rep string) string {
 	return strings.Join(fns, " / ")
 }
 
+// runConcurrently starts the given jobs behind one gate and waits for all of them.
+func runConcurrently(c *Case, idx []int, shared map[string]dcodec.Parameters, encoded map[string][]byte, conc []result) {
+	var wg sync.WaitGroup
+	gate := make(chan struct{})
+	for _, i := range idx {
+		wg.Add(1)
+		go func(i int) {
+			defer wg.Done()
+			<-gate
+			conc[i] = runJob(c, c.Jobs[i], shared, encoded)
+		}(i)
+	}
+	close(gate)
+	wg.Wait()
+}
+
+// checkCold: concurrent encodes, then concurrent decodes of their results, then the references.
+func checkCold(c *Case) (o core.Outcome) {
+	prev := runtime.GOMAXPROCS(c.Procs)
+	defer runtime.GOMAXPROCS(prev)
+	o.Label("procs=%d", c.Procs)
+	o.Label("cold-start")
+	shared := map[string]dcodec.Parameters{}
+	encoded := map[string][]byte{}
+	conc := make([]result, len(c.Jobs))
+	var encs, decs []int
+	for i, j := range c.Jobs {
+		o.Label("target=%s", j.Target)
+		if j.Op == "encode" {
+			encs = append(encs, i)
+		} else {
+			decs = append(decs, i)
+		}
+	}
+	newRaceReports()
+	runConcurrently(c, encs, shared, encoded, conc)
+	for _, i := range encs {
+		j := c.Jobs[i]
+		encoded[fmt.Sprintf("%s:%d", j.Target, j.Frame%len(c.Seeds))] = conc[i].out
+	}
+	runConcurrently(c, decs, shared, encoded, conc)
+	o.NonTrivial = len(encs) >= 2
+	reports := newRaceReports()
+	// references, one call at a time (decode references use the reference encodings)
+	for _, i := range encs {
+		j := c.Jobs[i]
+		r := runJob(c, j, shared, encoded)
+		if r.err != conc[i].err || !bytes.Equal(r.out, conc[i].out) {
+			o.Fail = core.Failf("result-differs", "job %d (%+v): among the first, concurrent calls of the process the result differs from the same job run alone (err %q vs %q, %d vs %d bytes)", i, j, conc[i].err, r.err, len(conc[i].out), len(r.out))
+			return
+		}
+	}
+	for _, i := range decs {
+		j := c.Jobs[i]
+		r := runJob(c, j, shared, encoded)
+		if r.err != conc[i].err || !bytes.Equal(r.out, conc[i].out) {
+			o.Fail = core.Failf("result-differs", "job %d (%+v): among the first, concurrent calls of the process the result differs from the same job run alone (err %q vs %q, %d vs %d bytes)", i, j, conc[i].err, r.err, len(conc[i].out), len(r.out))
+			return
+		}
+	}
+	for _, rep := range reports {
+		sig := raceSig(rep)
+		if sig == "" {
+			panic("harness: data race outside /repo:\n" + rep)
+		}
+		if len(rep) > 1800 {
+			rep = rep[:1800]
+		}
+		o.Fail = &core.Failure{Kind: "data-race", Sig: sig, Msg: rep}
+		return
+	}
+	return
+}
+
 func Check(c *Case) (o core.Outcome) {
+	if c.Cold {
+		return checkCold(c)
+	}
 	prev := runtime.GOMAXPROCS(c.Procs)
 	defer runtime.GOMAXPROCS(prev)
 	o.Label("procs=%d", c.Procs)
@@ -381,5 +463,31 @@ func TestSharedParams(t *testing.T) {
 			m := &Case{Procs: procs, W: 12, H: 9, SPP: 1, Seeds: []uint64{1, 2, 3}, Dims: [][2]int{{8, 8}, {64, 64}, {40, 3}}, Jobs: c.Jobs}
 			core.Eval(t, ID, "quota", m, Check)
 		}
+	}
+}
+
+// TestColdStart: one process per target whose first calls on that target are 8 concurrent
+// encodes of different frames, followed by 8 concurrent decodes (sharded so that every target
+// gets a process of its own; a table that is built on first use instead of in init() is only
+// ever unsafe there).
+func TestColdStart(t *testing.T) {
+	shard, shards := core.EnvInt("VERIF_SHARD", 0), max(1, core.EnvInt("VERIF_SHARDS", 1))
+	seed := core.EnvInt("VERIF_SEED", 1)
+	targets := append(append([]string{}, codecKeys...), "j2kobj", "jlossless", "jls")
+	for idx, k := range targets {
+		if idx%shards != shard {
+			continue
+		}
+		c := &Case{Procs: 16, W: 24, H: 16, SPP: []int{1, 3}[(idx+seed)%2], Cold: true}
+		for i := 0; i < 8; i++ {
+			c.Seeds = append(c.Seeds, uint64(seed*100+i))
+		}
+		for i := 0; i < 8; i++ {
+			c.Jobs = append(c.Jobs, Job{Target: k, Op: "encode", Frame: i, Par: "nil"})
+		}
+		for i := 0; i < 8; i++ {
+			c.Jobs = append(c.Jobs, Job{Target: k, Op: "decode", Frame: i, Par: "nil"})
+		}
+		core.Eval(t, ID, "quota", c, Check)
 	}
 }
